@@ -1,1 +1,504 @@
-// placeholder
+//! Seeded generators: unique stems, identifiers, type expressions and whole programs.
+use crate::model::*;
+use crate::rng::Rng;
+use crate::sut::LangId;
+use std::collections::BTreeMap;
+
+pub const RULES: [&str; 8] = [
+    "lowercase",
+    "UPPERCASE",
+    "PascalCase",
+    "camelCase",
+    "snake_case",
+    "SCREAMING_SNAKE_CASE",
+    "kebab-case",
+    "SCREAMING-KEBAB-CASE",
+];
+
+const STEM_ALPHA: &str = "abcdefghijklmnoprstuvwxyz"; // no 'q'
+const WORDS: [&str; 24] = [
+    "item", "value", "count", "name", "data", "info", "list", "map", "flag", "mode", "kind", "level", "index", "total", "user", "path", "code", "text", "state", "sum",
+    "id", "url", "x", "a",
+];
+
+/// every stem is 'q' + 5 letters without 'q'; no other generated word contains 'q', so a stem can
+/// only match at its own position after normalisation
+#[derive(Default, Clone)]
+pub struct Stems {
+    pub all: Vec<String>,
+}
+
+impl Stems {
+    pub fn fresh(&mut self, rng: &mut Rng) -> String {
+        loop {
+            let s = format!("q{}", rng.letters(STEM_ALPHA, 5));
+            if !self.all.contains(&s) {
+                self.all.push(s.clone());
+                return s;
+            }
+        }
+    }
+}
+
+pub fn normalise(s: &str) -> String {
+    s.chars().filter(|c| *c != '_' && *c != '-').flat_map(|c| c.to_lowercase()).collect()
+}
+
+/// all stems occurring in `s` (after normalisation)
+pub fn stems_in(s: &str) -> Vec<String> {
+    let n: Vec<char> = normalise(s).chars().collect();
+    let mut out = vec![];
+    let mut i = 0;
+    while i + 6 <= n.len() {
+        if n[i] == 'q' && n[i + 1..i + 6].iter().all(|c| c.is_ascii_lowercase() && *c != 'q') {
+            out.push(n[i..i + 6].iter().collect());
+            i += 6;
+        } else {
+            i += 1;
+        }
+    }
+    out
+}
+
+pub fn first_stem(s: &str) -> Option<String> {
+    stems_in(s).into_iter().next()
+}
+
+pub fn cap(s: &str) -> String {
+    let mut c = s.chars();
+    match c.next() {
+        Some(f) => f.to_uppercase().collect::<String>() + c.as_str(),
+        None => String::new(),
+    }
+}
+
+/// UpperCamelCase type / variant name around a stem
+pub fn camel_name(stem: &str, rng: &mut Rng) -> String {
+    match rng.below(4) {
+        0 => cap(stem),
+        1 => format!("{}{}", cap(stem), cap(word(rng))),
+        2 => format!("{}{}", cap(word(rng)), cap(stem)),
+        _ => format!("{}{}{}", cap(word(rng)), cap(stem), cap(word(rng))),
+    }
+}
+
+/// snake_case field name around a stem
+pub fn snake_name(stem: &str, rng: &mut Rng) -> String {
+    match rng.below(5) {
+        0 => stem.to_string(),
+        1 => format!("{}_{}", stem, word(rng)),
+        2 => format!("{}_{}", word(rng), stem),
+        3 => format!("{}_{}_{}", word(rng), stem, word(rng)),
+        _ => format!("{}{}", stem, rng.range(0, 9)),
+    }
+}
+
+/// explicit serde(rename) value over [A-Za-z_][A-Za-z0-9_-]* around a stem
+pub fn rename_value(stem: &str, rng: &mut Rng, allow_dash: bool) -> String {
+    let w = word(rng);
+    let forms: Vec<String> = vec![
+        format!("{}{}", cap(stem), cap(w)),
+        format!("{stem}{}", cap(w)),
+        format!("{w}_{stem}"),
+        format!("{}_{}", stem.to_uppercase(), w.to_uppercase()),
+        format!("_{stem}"),
+        format!("{stem}9"),
+        format!("{w}-{stem}"),
+        format!("{}-{}-x", stem.to_uppercase(), w),
+    ];
+    let n = if allow_dash { forms.len() } else { forms.len() - 2 };
+    forms[rng.below(n)].clone()
+}
+
+pub const PRIMS: [&str; 15] = ["bool", "char", "String", "&str", "i8", "i16", "i32", "u8", "u16", "u32", "I54", "U53", "f32", "f64", "isize_placeholder"];
+pub const SUPPORTED_PRIMS: [&str; 14] = ["bool", "char", "String", "&str", "i8", "i16", "i32", "u8", "u16", "u32", "I54", "U53", "f32", "f64"];
+pub const KEY_PRIMS: [&str; 6] = ["String", "&str", "i32", "u32", "u8", "char"];
+pub const PLAIN_WRAPPERS: [&str; 8] = ["Box", "Arc", "Rc", "Cow", "Cell", "RefCell", "Mutex", "RwLock"];
+
+#[derive(Clone, Debug)]
+pub struct TyCtx {
+    /// user types that may be referenced: (rust ident, number of generic parameters)
+    pub users: Vec<(String, usize)>,
+    /// generic parameters in scope
+    pub params: Vec<String>,
+    pub allow_unit: bool,
+    pub allow_wrappers: bool,
+    pub allow_arrays: bool,
+    pub allow_option: bool,
+    pub allow_datetime: bool,
+    pub allow_map: bool,
+}
+
+impl Default for TyCtx {
+    fn default() -> Self {
+        TyCtx { users: vec![], params: vec![], allow_unit: true, allow_wrappers: true, allow_arrays: true, allow_option: true, allow_datetime: false, allow_map: true }
+    }
+}
+
+pub fn gen_leaf(rng: &mut Rng, cx: &TyCtx) -> Ty {
+    let mut choices = 10;
+    if !cx.users.is_empty() {
+        choices += 5;
+    }
+    if !cx.params.is_empty() {
+        choices += 3;
+    }
+    let r = rng.below(choices + if cx.allow_unit { 1 } else { 0 } + if cx.allow_datetime { 1 } else { 0 });
+    if r < 10 {
+        return Ty::Prim(*rng.pick(&SUPPORTED_PRIMS));
+    }
+    let mut r = r - 10;
+    if !cx.users.is_empty() {
+        if r < 5 {
+            let (n, k) = rng.pick(&cx.users).clone();
+            let mut leafcx = cx.clone();
+            leafcx.users.clear();
+            let args = (0..k).map(|_| gen_leaf(rng, &leafcx)).collect();
+            return Ty::User(n, args);
+        }
+        r -= 5;
+    }
+    if !cx.params.is_empty() {
+        if r < 3 {
+            return Ty::Param(rng.pick(&cx.params).clone());
+        }
+        r -= 3;
+    }
+    if cx.allow_unit && r == 0 {
+        return Ty::Unit;
+    }
+    if cx.allow_datetime {
+        return Ty::DateTime;
+    }
+    Ty::Prim("String")
+}
+
+pub fn gen_key(rng: &mut Rng) -> Ty {
+    Ty::Prim(*rng.pick(&KEY_PRIMS))
+}
+
+/// random type expression of at most `depth` constructor levels
+pub fn gen_ty(rng: &mut Rng, cx: &TyCtx, depth: usize) -> Ty {
+    if depth == 0 || rng.chance(1, 4) {
+        return gen_leaf(rng, cx);
+    }
+    let mut kinds: Vec<u8> = vec![0, 0]; // Vec twice as likely
+    if cx.allow_arrays {
+        kinds.extend([1, 2]);
+    }
+    if cx.allow_option {
+        kinds.push(3);
+    }
+    if cx.allow_map {
+        kinds.push(4);
+    }
+    if cx.allow_wrappers {
+        kinds.extend([5, 6]);
+    }
+    let generic_users: Vec<&(String, usize)> = cx.users.iter().filter(|u| u.1 > 0).collect();
+    if !generic_users.is_empty() {
+        kinds.push(7);
+    }
+    match *rng.pick(&kinds) {
+        0 => Ty::Vec(Box::new(gen_ty(rng, cx, depth - 1))),
+        1 => Ty::Array(Box::new(gen_ty(rng, cx, depth - 1)), rng.range(1, 4)),
+        2 => Ty::Slice(Box::new(gen_ty(rng, cx, depth - 1))),
+        3 => Ty::Opt(Box::new(gen_ty(rng, cx, depth - 1))),
+        4 => Ty::Map(Box::new(gen_key(rng)), Box::new(gen_ty(rng, cx, depth - 1))),
+        5 => Ty::Wrap(*rng.pick(&PLAIN_WRAPPERS), Box::new(gen_ty(rng, cx, depth - 1))),
+        6 => Ty::Ref(Box::new(gen_ty(rng, cx, depth - 1))),
+        _ => {
+            let (n, k) = (*rng.pick(&generic_users)).clone();
+            let args = (0..k).map(|_| gen_ty(rng, cx, depth - 1)).collect();
+            Ty::User(n, args)
+        }
+    }
+}
+
+// ---------------------------------------------------------------------------------------------
+// whole programs in the grammar every backend supports
+
+#[derive(Clone, Debug)]
+pub struct Profile {
+    pub items: (usize, usize),
+    pub fields: (usize, usize),
+    pub type_depth: usize,
+    pub generics: bool,
+    pub type_renames: bool,
+    pub field_renames: bool,
+    pub rename_all: bool,
+    pub dashed: bool,
+    pub enums: bool,
+    pub aliases: bool,
+    pub consts: bool,
+    pub docs: bool,
+    pub decoys: bool,
+    pub skips: bool,
+    pub defaults: bool,
+    pub mods: usize,
+    pub refs: bool,
+    pub unit: bool,
+    pub datetime: bool,
+    pub decorators: bool,
+    pub keyword_fields: bool,
+    pub wrappers: bool,
+}
+
+impl Profile {
+    pub fn broad() -> Self {
+        Profile {
+            items: (2, 7),
+            fields: (0, 5),
+            type_depth: 3,
+            generics: true,
+            type_renames: false,
+            field_renames: true,
+            rename_all: true,
+            dashed: true,
+            enums: true,
+            aliases: true,
+            consts: false,
+            docs: true,
+            decoys: true,
+            skips: true,
+            defaults: true,
+            mods: 2,
+            refs: true,
+            unit: true,
+            datetime: false,
+            decorators: true,
+            keyword_fields: true,
+            wrappers: true,
+        }
+    }
+}
+
+#[derive(Clone, Debug)]
+pub struct Program {
+    pub items: Vec<Item>,
+    /// stem -> what it names ("item:<ident>", "field:<item>.<ident>", "variant:<item>.<ident>", "decoy:..", "skipped:..")
+    pub stems: BTreeMap<String, String>,
+}
+
+pub const KEYWORD_FIELDS: [&str; 14] = ["type", "default", "class", "in", "is", "for", "self_", "return", "import", "func", "val", "object", "package", "None_"];
+
+fn docs(rng: &mut Rng, p: &Profile) -> Vec<Doc> {
+    if !p.docs || !rng.chance(1, 3) {
+        return vec![];
+    }
+    let n = rng.range(1, 2);
+    (0..n)
+        .map(|_| Doc {
+            text: format!(" {} {} {}", word(rng), rng.pick(&["holds", "is", "for", "of"]), word(rng)),
+            style: *rng.pick(&[DocStyle::Line, DocStyle::Line, DocStyle::Attr]),
+        })
+        .collect()
+}
+
+fn gen_fields(rng: &mut Rng, p: &Profile, stems: &mut Stems, map: &mut BTreeMap<String, String>, owner: &str, cx: &TyCtx, n: usize, lang_safe_keywords: bool) -> Vec<Field> {
+    let mut out = vec![];
+    for _ in 0..n {
+        let st = stems.fresh(rng);
+        let mut f = Field::new(&snake_name(&st, rng), gen_ty(rng, cx, p.type_depth));
+        if p.keyword_fields && lang_safe_keywords && rng.chance(1, 12) {
+            // a raw identifier carrying the stem
+            f.raw = true;
+        }
+        if p.field_renames && rng.chance(1, 4) {
+            f.rename = Some(rename_value(&st, rng, p.dashed));
+        }
+        if p.defaults && rng.chance(1, 6) {
+            f.default = true;
+        }
+        f.docs = docs(rng, p);
+        if p.skips && rng.chance(1, 8) {
+            f.skip = *rng.pick(&[Skip::Serde, Skip::Typeshare]);
+            map.insert(st.clone(), format!("skipped-field:{owner}.{}", f.ident));
+        } else {
+            map.insert(st.clone(), format!("field:{owner}.{}", f.ident));
+        }
+        out.push(f);
+    }
+    out
+}
+
+/// A program all six backends are documented to support (subject to `lang` for consts / DateTime / generic enums).
+pub fn gen_program(rng: &mut Rng, p: &Profile, lang: Option<LangId>) -> Program {
+    let mut stems = Stems::default();
+    let mut map = BTreeMap::new();
+    let n = rng.range(p.items.0, p.items.1);
+    let mut items: Vec<Item> = vec![];
+    // later items may reference earlier ones (acyclic); order is shuffled afterwards
+    let mut users: Vec<(String, usize)> = vec![];
+    let generic_enum_ok = !matches!(lang, Some(LangId::Go) | Some(LangId::Python));
+    let generic_alias_ok = !matches!(lang, Some(LangId::Go) | Some(LangId::Python));
+    let const_ok = p.consts && lang.map(|l| l.supports_const()).unwrap_or(false);
+    for _ in 0..n {
+        let st = stems.fresh(rng);
+        let ident = camel_name(&st, rng);
+        let mut kinds: Vec<u8> = vec![0, 0, 0];
+        if p.enums {
+            kinds.extend([1, 2, 2]);
+        }
+        if p.aliases {
+            kinds.extend([3, 4]);
+        }
+        if const_ok {
+            kinds.push(5);
+        }
+        let k = *rng.pick(&kinds);
+        let mut generics: Vec<String> = vec![];
+        let allow_generics = p.generics && match k {
+            0 => true,
+            2 => generic_enum_ok,
+            3 | 4 => generic_alias_ok,
+            _ => false,
+        };
+        if allow_generics && rng.chance(1, 5) {
+            generics = (0..rng.range(1, 2)).map(|i| ["T", "U"][i].to_string()).collect();
+        }
+        let cx = TyCtx {
+            users: if p.refs { users.clone() } else { vec![] },
+            params: generics.clone(),
+            allow_unit: p.unit,
+            allow_wrappers: p.wrappers,
+            allow_datetime: p.datetime && matches!(lang, Some(LangId::Ts) | Some(LangId::Go) | Some(LangId::Python)),
+            ..Default::default()
+        };
+        let mut it = match k {
+            0 => {
+                let nf = rng.range(p.fields.0, p.fields.1);
+                let fs = gen_fields(rng, p, &mut stems, &mut map, &ident, &cx, nf, true);
+                if fs.is_empty() && rng.coin() {
+                    Item::new(&ident, Kind::UnitStruct)
+                } else {
+                    Item::new(&ident, Kind::Struct(fs))
+                }
+            }
+            1 => {
+                // unit enum
+                let nv = rng.range(1, 6);
+                let mut vs = vec![];
+                for _ in 0..nv {
+                    let vst = stems.fresh(rng);
+                    let mut v = Variant::new(&camel_name(&vst, rng), VKind::Unit);
+                    if p.field_renames && rng.chance(1, 5) {
+                        v.rename = Some(rename_value(&vst, rng, p.dashed));
+                    }
+                    v.docs = docs(rng, p);
+                    if p.skips && nv > 1 && rng.chance(1, 8) {
+                        v.skip = *rng.pick(&[Skip::Serde, Skip::Typeshare]);
+                        map.insert(vst, format!("skipped-variant:{ident}.{}", v.ident));
+                    } else {
+                        map.insert(vst, format!("variant:{ident}.{}", v.ident));
+                    }
+                    vs.push(v);
+                }
+                if vs.iter().all(|v| v.skip != Skip::No) {
+                    vs[0].skip = Skip::No;
+                    let vst = first_stem(&vs[0].ident).unwrap();
+                    map.insert(vst, format!("variant:{ident}.{}", vs[0].ident));
+                }
+                Item::new(&ident, Kind::Enum { variants: vs, tag: None, content: None })
+            }
+            2 => {
+                let nv = rng.range(1, 5);
+                let mut vs = vec![];
+                let mut has_data = false;
+                for i in 0..nv {
+                    let vst = stems.fresh(rng);
+                    let force_data = i == nv - 1 && !has_data;
+                    let kind = match if force_data { rng.range(1, 2) } else { rng.below(3) } {
+                        0 => VKind::Unit,
+                        1 => VKind::Newtype(gen_ty(rng, &cx, p.type_depth)),
+                        _ => {
+                            let nf = rng.range(1, 4);
+                            VKind::Struct(gen_fields(rng, p, &mut stems, &mut map, &ident, &cx, nf, true))
+                        }
+                    };
+                    let data = !matches!(kind, VKind::Unit);
+                    let mut v = Variant::new(&camel_name(&vst, rng), kind);
+                    if p.field_renames && rng.chance(1, 5) {
+                        v.rename = Some(rename_value(&vst, rng, p.dashed));
+                    }
+                    if p.rename_all && matches!(v.kind, VKind::Struct(_)) && rng.chance(1, 4) {
+                        v.rename_all = Some(rng.pick(&RULES).to_string());
+                    }
+                    v.docs = docs(rng, p);
+                    // never skip the variant that makes the enum algebraic
+                    if p.skips && !force_data && !data && rng.chance(1, 8) {
+                        v.skip = *rng.pick(&[Skip::Serde, Skip::Typeshare]);
+                        map.insert(vst, format!("skipped-variant:{ident}.{}", v.ident));
+                    } else {
+                        has_data |= data;
+                        map.insert(vst, format!("variant:{ident}.{}", v.ident));
+                    }
+                    vs.push(v);
+                }
+                let (tag, content) = *rng.pick(&[("type", "content"), ("t", "c"), ("kind", "data"), ("tagKey", "contentKey"), ("tag_key", "payload")]);
+                Item::new(&ident, Kind::Enum { variants: vs, tag: Some(tag.into()), content: Some(content.into()) })
+            }
+            3 => Item::new(&ident, Kind::Alias(gen_ty(rng, &cx, p.type_depth))),
+            4 => Item::new(&ident, Kind::Newtype(gen_ty(rng, &cx, p.type_depth))),
+            _ => {
+                let (ty, expr) = match rng.below(3) {
+                    0 => ("u32", rng.below(100000).to_string()),
+                    1 => ("i32", rng.below(1000).to_string()),
+                    _ => ("u8", rng.below(255).to_string()),
+                };
+                let mut c = Item::new(&format!("{}_{}", st.to_uppercase(), word(rng).to_uppercase()), Kind::Const { ty: Ty::Prim(ty), expr });
+                c.ident = c.ident.replace('-', "_");
+                c
+            }
+        };
+        it.generics = generics.clone();
+        // unused generic parameters are an error in rustc for structs/enums; typeshare does not care, keep them used when possible
+        if p.rename_all && matches!(it.kind, Kind::Struct(_) | Kind::Enum { .. }) && rng.chance(1, 3) {
+            it.rename_all = Some(rng.pick(&RULES).to_string());
+        }
+        if p.type_renames && !matches!(it.kind, Kind::Const { .. }) && rng.chance(1, 4) {
+            it.rename = Some(format!("{}Renamed", cap(&st)));
+        }
+        it.docs = docs(rng, p);
+        if p.decorators && rng.chance(1, 8) && !matches!(it.kind, Kind::Const { .. }) {
+            it.ts_args.push(rng.pick(&["swift = \"Equatable\"", "swift = \"Equatable, Hashable\"", "kotlin = \"JvmInline\"", "redacted", "swiftGenericConstraints = \"T: Equatable\""]).to_string());
+        }
+        if rng.chance(1, 6) {
+            it.annot = Annot::Qualified;
+        }
+        if p.mods > 0 && rng.chance(1, 4) {
+            let d = rng.range(1, p.mods);
+            it.mods = (0..d).map(|i| format!("m{}", i)).collect();
+        }
+        map.insert(st, format!("item:{}", it.ident));
+        if !matches!(it.kind, Kind::Const { .. }) {
+            users.push((it.ident.clone(), it.generics.len()));
+        }
+        items.push(it);
+        // decoys
+        if p.decoys && rng.chance(1, 4) {
+            let dst = stems.fresh(rng);
+            let dident = camel_name(&dst, rng);
+            let fst = stems.fresh(rng);
+            let mut d = Item::new(&dident, Kind::Struct(vec![Field::new(&snake_name(&fst, rng), Ty::Prim("u32"))]));
+            d.annot = Annot::None;
+            map.insert(dst, format!("decoy:{dident}"));
+            map.insert(fst, format!("decoy-field:{dident}"));
+            items.push(d);
+        }
+    }
+    // items with the same mods must be contiguous for render_file to group them; sort by mods, shuffle inside
+    rng.shuffle(&mut items);
+    items.sort_by(|a, b| a.mods.cmp(&b.mods));
+    Program { items, stems: map }
+}
+
+impl Program {
+    pub fn render(&self, rng: &mut Rng, o: &RenderOpts) -> String {
+        render_file(&self.items, &[], &[], o, rng)
+    }
+}
+
+pub fn word(rng: &mut Rng) -> &'static str {
+    WORDS[rng.below(WORDS.len())]
+}
